@@ -441,6 +441,25 @@ let op_superimpose = function
           string_of_int (int_of_n c) ^ "," ^ o f ^ "," ^ o g ^ "," ^ string_of_int (int_of_n a)) out)
   | _ -> "BADARGS"
 
+(* realign <entries L/R/B separated by ','> <wm csv> <wp csv> -> rows L<i>,R<j>,B<i>:<j> *)
+let op_realign = function
+  | [ al; wm; wp ] ->
+      let rec ents es me pe = match es with
+        | [] -> []
+        | "L" :: r -> Realign.EL (nat_of_int me) :: ents r (me + 1) pe
+        | "R" :: r -> Realign.ER (nat_of_int pe) :: ents r me (pe + 1)
+        | "B" :: r -> Realign.EB (nat_of_int me, nat_of_int pe) :: ents r (me + 1) (pe + 1)
+        | _ -> failwith "bad entry" in
+      let es = if al = "" then [] else ents (S.split_on_char ',' al) 0 0 in
+      let nats x = L.map nat_of_int (ints_of_csv x) in
+      (match Realign.realign es (nats wm) (nats wp) O O O O with
+       | None -> "OK\tPANIC"
+       | Some rows -> "OK\t" ^ S.concat "," (L.map (function
+           | Realign.RL i -> "L" ^ string_of_int (int_of_nat i)
+           | Realign.RR j -> "R" ^ string_of_int (int_of_nat j)
+           | Realign.RB (i, j) -> "B" ^ string_of_int (int_of_nat i) ^ ":" ^ string_of_int (int_of_nat j)) rows))
+  | _ -> "BADARGS"
+
 (* blame_run n keys gitflags *)
 let op_blame_run = function
   | [ n; keys; flags ] ->
@@ -463,6 +482,7 @@ let op_blame_spec = function
 let dispatch = function
   | "wrap_line" :: args -> op_wrap_line args
   | "truncate" :: args -> op_truncate args
+  | "realign" :: args -> op_realign args
   | "superimpose" :: args -> op_superimpose args
   | "pager_select" :: args -> op_pager_select args
   | "hunk_numbers" :: args -> op_hunk_numbers args
